@@ -15,7 +15,6 @@ done
 if [ -n "${VP_RUN_REPO:-}" ] && [ "$(pwd)" != /verif ]; then
   grep -rl '"/repo/' sim --include=Cargo.toml | xargs sed -i "s#\"/repo/#\"$VP_RUN_REPO/#g"
   sed -i "s#--manifest-path /repo/Cargo.toml#--manifest-path $VP_RUN_REPO/Cargo.toml#" run
-  cp /repo/Cargo.lock sim/Cargo.lock 2>/dev/null || true
 fi
 ./run setup > setup.log 2>&1 || { tail -20 setup.log; echo "SWEEP setup failed"; exit 2; }
 bad=0
